@@ -68,6 +68,16 @@ def r1(ctx):
             "find=Continue,send=Err,unrecoverable=False": "Recoverable"}
     ctx.check("Engine::send_request", tab == want, "failed deliveries are reported with the documented error class",
               got=tab, want=want, key="error-table")
+    # the `?` on a missing link converts into the unrecoverable class
+    fr = [d for d, r in ctx.facts.bodies.items() if r.get("name") == "from" and r.get("impl_self_adt") == "barter::error::EngineError"
+          or (r.get("name") == "from" and (r.get("impl_self") or "").endswith("engine::error::EngineError"))]
+    conv = {}
+    for d in fr:
+        r = ctx.facts.bodies[d]
+        if "UnrecoverableEngineError" in (r.get("impl_trait_ref") or ""):
+            conv[d] = render(ctx.body(d).return_term())
+    ctx.check("EngineError::from(UnrecoverableEngineError)", len(conv) == 1 and list(conv.values())[0].startswith("EngineError::Unrecoverable{0: "),
+              "a missing execution link (find error) surfaces as an unrecoverable engine error", got=conv, key="fatal-conversion")
 
 
 def _in_loop(b, bi):
